@@ -14,6 +14,7 @@ R8.5  update formulas: Newton x' = x + a with J(x)·a = −f(x); polynomial Newt
       evaluated at dimension 2 with symbolic matrices — the inverse-Jacobian update satisfies the secant equation H'·y = s and is rank one
       in the row space sᵀH (Broyden's good update in Sherman–Morrison form), the step is −H'·f and the iterate advances by it.
 R8.6  guarded Aitken quotient: the Δ² quotient is 0/0 exactly at the fixed point and must be guarded.
+R8.8  Steffensen's update is numerically stable near convergence: first-order rounding sensitivities of the returned iterate stay bounded as d → 0.
 R8.7  copy-paste deviant: the three start points of Muller's method are built from their own components.
 """
 import sympy as sp
@@ -200,6 +201,98 @@ def check_broyden(F, run, dim=2):
         run.check((x2 - x - s2).applyfunc(lambda e: sp.cancel(sp.together(e))).is_zero_matrix, "R8.5", path, "broyden:iterate-update", F.loc(b, loop),
                   "the iterate is not advanced by the new step")
     run.floor("R8.5", path, "iteration paths", n, 1, F.loc(b))
+
+
+class RoundInterp(RInterp):
+    """Every arithmetic result carries a relative rounding error (1 + e_k): first-order floating-point error model."""
+    def __init__(self, *a, **k):
+        RInterp.__init__(self, *a, **k)
+        self.errs = []
+        self.n_f = 0
+
+    def _round(self, v, what):
+        if not hasattr(v, "free_symbols") or not v.free_symbols or isinstance(v, sp.core.relational.Relational) or v.is_Boolean:
+            return v
+        e = sp.Symbol("e%d" % len(self.errs), real=True)
+        self.errs.append((e, what))
+        return v * (1 + e)
+
+    def binop(self, op, a, b, n):
+        v = RInterp.binop(self, op, a, b, n)
+        if op in ("Add", "Sub", "Mul", "Div"):
+            # multiplication / division by an exact power of two is exact
+            if op in ("Mul", "Div") and any(getattr(x, "is_number", False) and x != 0 and sp.log(sp.Abs(x), 2).is_integer for x in (a, b)):
+                return v
+            return self._round(v, "%s: %s" % (op, pp(n)[:50] if isinstance(n, dict) else op))
+        return v
+
+    def ev_MCall(self, n):
+        v = RInterp.ev_MCall(self, n)
+        if n["name"] in ("powi", "powf", "sqrt", "recip"):
+            return self._round(v, "%s: %s" % (n["name"], pp(n)[:50]))
+        return v
+
+    def user_call(self, pl, args, n):
+        self.n_f += 1
+        v = sp.Symbol("G%d" % self.n_f, real=True)
+        self.calls.append((pl, args, n, v))
+        return v
+
+
+def check_steffensen_stability(F, run):
+    """R8.8 — the statement asks Steffensen to reach tolerances close to machine precision.  First-order rounding analysis of the returned iterate:
+    every arithmetic result r is replaced by r·(1+e_k); near convergence (x_0 = p + d, f(x_0) = p + λd, f(f(x_0)) = p + λ²d, d → 0, p ≠ 0) the
+    sensitivities ∂result/∂e_k must stay bounded.  The correction form x_0 − (Δx)²/Δ²x passes; the algebraically equal quotient
+    (x_0·x_2 − x_1²)/Δ²x has sensitivities ~ p²/d (the iterate cannot get much closer to p than sqrt(ε)·|p|) and fails."""
+    path = "roots::steffensen"
+    b = F.fn(path)
+    run.analysed(b)
+    st, loop = loop_of(b)
+    X0 = sym.S("initial")
+    try:
+        lps = paths.explore(F, b, setup=c07.preset_all(b, dict(c07.constant_locals(F, b))), node=loop["body"], interp_cls=RoundInterp, limit=64)
+    except sym.Unsupported as u:
+        run.broken("R8.8", path, "iteration", F.loc(b, u.node if isinstance(u.node, dict) else loop), str(u))
+        return
+    P, D = sp.Symbol("p_fix", positive=True), sp.Symbol("d_conv", positive=True)
+    lam = sp.Rational(1, 3)
+    near = {X0: P + D, sp.Symbol("G1", real=True): P + lam * D, sp.Symbol("G2", real=True): P + lam ** 2 * D}
+    n = 0
+    for pth in lps:
+        it = pth.interp
+        outs = []
+        if guards.is_ok(pth.result):
+            outs.append(("returned", pth.result.args[0]))
+        elif pth.fell_through:
+            cur = {nm: it.env.get(i) for i, nm in it.names.items()}
+            outs.append(("next iterate", cur.get("initial")))
+        for role, R in outs:
+            if not hasattr(R, "free_symbols"):
+                continue
+            es = [e for e, _ in it.errs if e in R.free_symbols]
+            if not es:
+                continue
+            n += 1
+            zero = {e: 0 for e, _ in it.errs}
+            worst = None
+            for e, what in it.errs:
+                if e not in R.free_symbols:
+                    continue
+                S = sp.diff(R, e).subs(zero).subs(near)
+                try:
+                    lim = sp.limit(sp.simplify(S), D, 0, "+")
+                except Exception:
+                    lim = sp.zoo
+                if not lim.is_finite:
+                    worst = (what, sp.simplify(S))
+                    break
+            key = "%s:%s" % (role, ",".join(sorted({str(x) for x in R.subs(zero).free_symbols})))
+            run.check(worst is None, "R8.8", path, "stable-near-convergence:" + key[:60], F.loc(b, loop),
+                      "the %s value %s amplifies rounding errors without bound as the iteration converges: the result of `%s` enters with sensitivity %s "
+                      "(x_0 = p + d, f(x_0) = p + d/3, f(f(x_0)) = p + d/9, d → 0) — a quotient of two vanishing differences of O(p²) products; tolerances near machine "
+                      "precision cannot be met" % (role, str(R.subs(zero))[:70], worst[0] if worst else "", str(worst[1])[:80] if worst else ""),
+                      sample="steffensen %s: rounding sensitivities bounded near the fixed point" % role)
+    run.floor("R8.8", path, "iterate expressions analysed", n, 2, F.loc(b))
 
 
 def dkey(dj):
@@ -518,6 +611,10 @@ def run(F, run, tier):
     except Missing as e:
         run.broken("R8.5", "roots::secant", "anchor", "src/roots", str(e))
     check_aitken_guard(F, run)
+    try:
+        check_steffensen_stability(F, run)
+    except Missing as e:
+        run.broken("R8.8", "roots::steffensen", "anchor", "src/roots", str(e))
     check_muller_starts(F, run)
     run.assumptions += ["convergence from a start inside the convergence region is numerical: not decided",
                         "user functions, Jacobians and polynomial evaluation are uninterpreted"]
